@@ -6,10 +6,14 @@ from .mgr_common import parse_obs, Ghost, stats, model_lines, mutate_case, last_
 ID = "C05"
 AREA = M.AREA
 LEAN_PROPS = "Litep2pVerif.Props.C05"
+CONST_TABLE = [
+    ("DIAL_DEADLINE_MULTIPLIER", "src/transport/mod.rs", r"const DIAL_DEADLINE_MULTIPLIER: u32 = ([^;]+);", 2),
+]
 THEOREMS = ["no_dup_outcome", "dial_ledger", "quiescent_dialable", "addr_total", "dial_address_parses_for_tcp",
             "dial_address_peers_agree", "transport_dial_total_on_accepted_shapes", "protocol_dial_ledger", "protocol_dial_joins",
             "protocol_notified_despite_full_channel", "facade_reports_every_outcome",
-            "poll_next_reports_every_ready_result", "executor_collects_every_due_event", "queued_dial_failure_is_due"]
+            "poll_next_reports_every_ready_result", "executor_collects_every_due_event", "queued_dial_failure_is_due",
+            "open_deadline_reports_failure"]
 MANIFEST = {
     "text": "Lean 4 theorems about an executable operational model of the connection manager with a ghost ledger of accepted "
             "dial attempts: no_dup_outcome, dial_ledger (outcome + inflight = 1 for every attempt in every reachable state), "
